@@ -121,7 +121,8 @@
          const bool r0 = (o.k == WOULDPUT) ? t.WouldBeEqualToAfterPut(u, ka, v, false) : t.WouldBeEqualToAfterRemove(u, ka, false);
          const bool r1 = (o.k == WOULDPUT) ? t.WouldBeEqualToAfterPut(u, ka, v, true) : t.WouldBeEqualToAfterRemove(u, ka, true);
          FAILIF(r0 != es, verif::Fmt("returned %d but the table after the operation would be %s the other table; after=", (int)r0, es ? "equal to" : "different from") + ShowList(after));
-         FAILIF(r1 != el, verif::Fmt("(considerOrdering) returned %d but the table after the operation would be %s the other table; after=", (int)r1, el ? "identical to" : "different from") + ShowList(after));
+         if (r1 != el) { msg = o.name + verif::Fmt(": (considerOrdering=true) returned %d but the table after the operation would be %s the other table; after=", (int)r1, el ? "identical to" : "different from") + ShowList(after) + Dump(w); key = std::string("result:") + kKindNames[o.k] + "(considerOrdering)"; return seqx::SEQX_VIOLATION; }
+         FAILIF(false, verif::Fmt("(considerOrdering) returned %d but the table after the operation would be %s the other table; after=", (int)r1, el ? "identical to" : "different from") + ShowList(after));
          res = verif::Fmt("%d%d", (int)r0, (int)r1); break; }
       case U_REMOVE: { status_t r = u.Remove(ka); const bool e = RRemove(&w, U, mu, o.a); FAILIF(r.IsOK() != e, "status wrong"); break; }
       case U_PUT: { status_t r = u.Put(ka, v); RPut(&w, U, mu, o.a, v); FAILIF(r.IsError(), "failed"); break; }
